@@ -31,6 +31,10 @@ pub fn fromstr(size: usize, rng: &mut Rng, out: &mut Out) {
         "1.2.3.4", "255.255.255.255", "256.1.1.1", "1.2.3", "1.2.3.4.5", "01.2.3.4", "1.2.3.04", "0.0.0.0", "1.2.3.4 ", "1.2.3.-4", "1.2.3.+4", "a.b.c.d", "0x1.2.3.4", "1。2。3。4", "127.1", "1.2.3.4:80",
         "::", "::1", "1::", "1::2", "1:2:3:4:5:6:7:8", "1:2:3:4:5:6:7", "1:2:3:4:5:6:7:8:9", "::ffff:1.2.3.4", "::1.2.3.4", "1:2:3:4:5:6:1.2.3.4", "fe80::1%eth0", "[::1]", "::g", "12345::", "::ffff:256.1.1.1",
         "1::2::3", ":::", ":", "0:0:0:0:0:0:0:0", "FFFF::ffff", "::1 ", "1:2:3:4:5:6:7::", "::2:3:4:5:6:7:8",
+        // the longest spellings FromStr accepts (and one byte more)
+        "ffff:ffff:ffff:ffff:ffff:ffff:ffff:ffff", "0000:0000:0000:0000:0000:ffff:192.168.100.100", "ffff:ffff:ffff:ffff:ffff:ffff:255.255.255.255",
+        "0000:0000:0000:0000:0000:0000:0000:00000", "0000:0000:0000:0000:0000:ffff:192.168.100.1000", "00000::1", "1:2:3:4:5:6:7.8.9.10", "::ffff:0255.1.1.1",
+        "255.255.255.255", "0255.255.255.255", "255.255.255.2550", "000.000.000.000", "1.1.1.1111",
     ] {
         pool.push(s.to_owned());
     }
